@@ -489,11 +489,30 @@ def coq_event(e):
     raise ValueError(e)
 
 
+def coq_parses(raw, x):
+    """what the pipeline parser makes of this piece (the model's oracle input): x = None (no request completes in it),
+    a request spec (the piece completes exactly this request, nothing follows), or a list of specs: the piece is their
+    wire forms back to back starting at its first byte, optionally followed by an incomplete beginning"""
+    if x is None:
+        return '[PPartial]'
+    if isinstance(x, dict):
+        return '[PComplete %s []]' % coq_request(abstract_request(x))
+    out, pos = [], 0
+    for sp in x:
+        w = wire(sp)
+        assert raw[pos:pos + len(w)] == w
+        pos += len(w)
+        out.append('PComplete %s %s' % (coq_request(abstract_request(sp)), cb(raw[pos:])))
+    if pos < len(raw):
+        out.append('PPartial')
+    return C.coq_list(out)
+
+
 def coq_step(st):
     if st[0] == 'first':
         return 'SFirst %s %s' % (coq_request(abstract_request(st[1])), C.coq_bool(st[2]))
     if st[0] == 'client':
-        return 'SClient %s %s' % (cb(st[1]), C.coq_option(lambda s: coq_request(abstract_request(s)), st[2]))
+        return 'SClient %s %s' % (cb(st[1]), coq_parses(st[1], st[2]))
     return 'SUpstream %s' % cb(st[1])
 
 
